@@ -15,6 +15,7 @@ Strings are hex of their UTF-8 bytes (`-` = empty string). Lists use `,` / `;`, 
   pnew <fresh|pooled>                            NewBrokerRowProtoConverter for the last cfg: brand-new converter, or the pooled one
   pconv <metric>                                 ConvertTo through that converter (its state is carried along)
   fnew <fresh|pooled>                            a flat decoder: brand-new, or the one the last request released
+  famscan <ts:fam:start:end>…                    the family iterator over one shard group, calculator given as a table
   inew                                           influx.Parse takes a RowBuilder (the pooled one: what the last request left)
   iline <ok|badts|strfields|badtags|comment> <metric>   one line of the request through the shared RowBuilder
   fdec <metric>                                  BrokerRowFlatDecoder.DecodeTo of the raw flat row (no nil entries)
@@ -391,6 +392,29 @@ def step (st : St) (ws : List String) : St × String :=
         | (d', .error e) => ({ st with dec := d' }, "ferr " ++ showFErr e)
       | none => (st, "bad-op")
     | _ => (st, "bad-op")
+  | "famscan" :: rows =>
+    -- famscan <ts:famTime:rangeStart:rangeEnd>…  one shard group in batch order (row id = position); the
+    -- calculator is the table the harness read off the real one
+    let row? (w : String) : Option (Int × Int × Int × Int) :=
+      match w.splitOn ":" with
+      | [a, b, c, d] => do
+        let a ← a.toInt?
+        let b ← b.toInt?
+        let c ← c.toInt?
+        let d ← d.toInt?
+        some (a, b, c, d)
+      | _ => none
+    match rows.mapM row? with
+    | some tbl =>
+      if tbl.isEmpty then (st, "bad-op") else
+      let look (t : Int) : Option (Int × Int × Int × Int) := tbl.find? (fun r => r.1 == t)
+      let C : Calc :=
+        { famTime := fun t => match look t with | some r => r.2.1 | none => 0
+          range := fun t => match look t with | some r => (r.2.2.1, r.2.2.2) | none => (1, 0) }
+      let brs : List BRow := (List.range tbl.length).zip tbl |>.map (fun (i, r) => ⟨i, simpleRow r.1, 0, false⟩)
+      let gs := familyGroupsCode C (insertionSort lessTs) brs
+      (st, "groups " ++ showList " " (gs.map (fun g => s!"{g.1}:{showIds g.2}")))
+    | none => (st, "bad-op")
   | ["inew"] => (st, "ok")
   | "iline" :: kind :: rest =>
     -- one line of a line-protocol request through the shared RowBuilder; `kind` = what the scanning layer
